@@ -74,6 +74,8 @@ pub struct DrainLog {
     pub total: u128,
     /// Data frames (non-empty) seen after the first terminal event or after the eos stop.
     pub data_after_terminal: u64,
+    /// Frames of any size (also empty ones) seen after the first terminal event.
+    pub frames_after_terminal: u64,
     pub err_after_eos: bool,
     pub stalled: bool,
     pub too_many_polls: bool,
@@ -150,6 +152,9 @@ pub fn drain(
                 Ok(d) => {
                     let n = d.remaining() as u64;
                     if after {
+                        if log.terminal.is_some() {
+                            log.frames_after_terminal += 1;
+                        }
                         if n > 0 {
                             log.data_after_terminal += 1;
                         }
